@@ -187,6 +187,8 @@ class C07(Check):
                 v.violate("C07", f"exception/{exit_tag}", kinds + [evA["exc"].split(":")[0]], evA["exc"], evA["seq"], "A")
         elif out == "no_progress":
             v.violate("C07", "no_progress", kinds, evA.get("exc"), evA["seq"], "A")
+        elif out == "slow_convergence":
+            v.probe("step_cap_on_monotone_descent(inconclusive)")
         elif out == "false":
             # legal if infeasible, or cut short before the first model
             if incumbents:
@@ -195,7 +197,7 @@ class C07(Check):
                 v.violate("C07", "optimisers_disagree/feasibility", kinds, {"A": "false", "B": "solution"}, evA["seq"], "A")
         elif out == "solution":
             f = self.evaluate_event(plan, result, evA)
-            v.unspecified += f.unspecified
+            v.absorb_unspecified(f)
             v.rules_checked += f.checked
             for it in f.items:
                 if it["prop"] in VALIDITY_PROPS:
